@@ -28,6 +28,26 @@ fn work(n: usize, m: usize) -> u64 {
     after - before
 }
 
+/// the same measure for a square (both operands the same value)
+fn work_square(n: usize) -> u64 {
+    let a = dense(n, 3);
+    let before = verif_probe::get(Probe::MAC_DIGIT_WORK);
+    let p = &a * &a;
+    let after = verif_probe::get(Probe::MAC_DIGIT_WORK);
+    assert!(p.bits() > 0);
+    after - before
+}
+/// ... and for `acc *= &w` where acc was shrunk in place before (spare capacity for the whole product)
+fn work_assign(n: usize) -> u64 {
+    let (u, v, w) = (dense(n, 4), dense(n, 5), dense(n, 6));
+    let mut acc = (&u * &v) >> (64 * n as u64);
+    let before = verif_probe::get(Probe::MAC_DIGIT_WORK);
+    acc *= &w;
+    let after = verif_probe::get(Probe::MAC_DIGIT_WORK);
+    assert!(acc.bits() > 0);
+    after - before
+}
+
 pub fn run(r: &mut Rec) {
     if !r.case("cost table") {
         return;
@@ -36,6 +56,14 @@ pub fn run(r: &mut Rec) {
     let mut n = 256usize;
     while n <= 16384 {
         bal.push(format!("{{\"n\":{},\"w\":{}}}", n, sc_json(&work(n, n).sc())));
+        n *= 2;
+    }
+    let mut sq: Vec<String> = vec![];
+    let mut asg: Vec<String> = vec![];
+    let mut n = 256usize;
+    while n <= 16384 {
+        sq.push(format!("{{\"n\":{},\"w\":{}}}", n, sc_json(&work_square(n).sc())));
+        asg.push(format!("{{\"n\":{},\"w\":{}}}", n, sc_json(&work_assign(n).sc())));
         n *= 2;
     }
     let mut unbal: Vec<String> = vec![];
@@ -49,5 +77,10 @@ pub fn run(r: &mut Rec) {
         }
     }
     let ex = format!("\"bal\":[{}],\"unbal\":[{}]", bal.join(","), unbal.join(","));
-    r.op("cost_table", "release", &[], &[], &ex, |_| Ret::none());
+    r.op("cost_table", "ref_ref_distinct", &[], &[], &ex, |_| Ret::none());
+    // the same inequalities for squares and for the in-place form on a buffer with spare capacity
+    let ex = format!("\"bal\":[{}],\"unbal\":[]", sq.join(","));
+    r.op("cost_table", "square", &[], &[], &ex, |_| Ret::none());
+    let ex = format!("\"bal\":[{}],\"unbal\":[]", asg.join(","));
+    r.op("cost_table", "mul_assign_spare_capacity", &[], &[], &ex, |_| Ret::none());
 }
